@@ -249,7 +249,7 @@ func RunSched(bodies []func() string, choices []int, snap func() string) *SchedR
 		delete(pending, t)
 		res.Trace = append(res.Trace, Step{Key: key, Enabled: append([]int(nil), en...), Chosen: t, Var: r.id, W: r.w == 1})
 		granted(r)
-		if r.id != "<start>" && !strings.HasPrefix(r.id, "sync:") && !strings.HasPrefix(r.id, "sync-ret:") {
+		if r.id != "<start>" && !strings.HasPrefix(r.id, "sync:") && !strings.HasPrefix(r.id, "sync-ret:") && !strings.HasPrefix(r.id, "yield:") {
 			common := func(a map[string]bool) bool {
 				for k := range a {
 					if lockset[t][k] {
